@@ -243,6 +243,9 @@ func (V *Verifier) contractFor(ex *Exec, c *ssa.CallCommon) (*FuncSpec, calleeIn
 	case c.StaticCallee() != nil:
 		fn := c.StaticCallee()
 		info.fn = fn
+		if _, isClosure := c.Value.(*ssa.MakeClosure); isClosure {
+			info.closure = c.Value
+		}
 		if fn.Pkg != nil {
 			info.key = fn.Pkg.Pkg.Name() + "." + fnKeyOf(fn)
 			info.pkg = fn.Pkg.Pkg
@@ -387,6 +390,10 @@ func (V *Verifier) modifiesNames(ex *Exec, spec *FuncSpec, c *ssa.CallCommon) []
 		for _, e := range cl.Exprs {
 			switch x := e.(type) {
 			case *SIdent:
+				if x.Name == "heap" {
+					out = append(out, "*heap")
+					continue
+				}
 				if V.db.IsTrace(x.Name) {
 					out = append(out, x.Name, x.Name+"len", "$seq")
 					ex.noteHeap("$seq", SInt)
